@@ -57,6 +57,8 @@ class RefAnd:
             self.s = "W0"
             return
         if c == "}":
+            if self.depth == 0 and self.s == "NW":
+                self._split(i)          # an unmatched closing brace is an ordinary character: it starts the next name
             self.depth = max(0, self.depth - 1)
             self.s = "W0"
             return
@@ -238,15 +240,13 @@ class AndRun:
         last = self.chars[-1] if self.chars else None
         text = "".join(self.chars)
         opts = []
-        can_end = bool(self.chars) and last not in WS and ref.depth == 0 and self.consistent(text, True)
+        can_end = bool(self.chars) and last not in WS and self.consistent(text, True)
         if can_end:
             opts.append("END")
         if len(self.chars) < self.owner.max_len:
             for c in self.owner.classes:
                 if not self.chars and c in WS:
                     continue                          # stripped input does not start with whitespace
-                if c == "}" and ref.depth == 0 and not ref.escaped:
-                    continue                          # brace-balanced inputs only
                 if c == "{" and ref.depth >= self.owner.depth_bound and not ref.escaped:
                     continue
                 if not self.consistent(text + c, False):
